@@ -11,6 +11,69 @@ pub fn file_bytes(run: u32, t0: u32, t1: u32, events: &[Event]) -> Vec<u8> {
     for e in events { v.extend(event_bytes(e)); }
     v.extend(0x8001u16.to_le_bytes()); v.extend(0x494Du16.to_le_bytes()); v.extend(run.to_le_bytes()); v.extend(t1.to_le_bytes()); v.extend((odb.len() as u32).to_le_bytes()); v.extend(odb); v
 }
+/// The same in any of the formats the MIDAS library reads: little or big endian; bank flavour 1 (16-bit sizes), 17 (32-bit)
+/// or 49 (32-bit with a reserved word). Bank *contents* are device data and stay byte for byte what they are.
+pub fn event_bytes_fmt(e: &Event, be: bool, flavour: u32) -> Vec<u8> {
+    let w16 = |v: &mut Vec<u8>, x: u16| v.extend(if be { x.to_be_bytes() } else { x.to_le_bytes() });
+    let w32 = |v: &mut Vec<u8>, x: u32| v.extend(if be { x.to_be_bytes() } else { x.to_le_bytes() });
+    let mut banks = Vec::new();
+    for (name, data) in &e.banks {
+        assert_eq!(name.len(), 4);
+        banks.extend(name.as_bytes());
+        match flavour {
+            1 => {
+                assert!(data.len() < 65536);
+                w16(&mut banks, 1);
+                w16(&mut banks, data.len() as u16);
+            }
+            17 => {
+                w32(&mut banks, 1);
+                w32(&mut banks, data.len() as u32);
+            }
+            _ => {
+                w32(&mut banks, 1);
+                w32(&mut banks, data.len() as u32);
+                banks.extend([0u8; 4]);
+            }
+        }
+        banks.extend(data);
+        for _ in 0..((8 - data.len() % 8) % 8) {
+            banks.push(0);
+        }
+    }
+    let mut v = Vec::new();
+    w16(&mut v, e.id);
+    w16(&mut v, 0);
+    w32(&mut v, e.serial);
+    w32(&mut v, e.timestamp);
+    w32(&mut v, (banks.len() + 8) as u32);
+    w32(&mut v, banks.len() as u32);
+    w32(&mut v, flavour);
+    v.extend(banks);
+    v
+}
+pub fn file_bytes_fmt(run: u32, t0: u32, t1: u32, events: &[Event], be: bool, flavour: u32) -> Vec<u8> {
+    let w16 = |v: &mut Vec<u8>, x: u16| v.extend(if be { x.to_be_bytes() } else { x.to_le_bytes() });
+    let w32 = |v: &mut Vec<u8>, x: u32| v.extend(if be { x.to_be_bytes() } else { x.to_le_bytes() });
+    let odb = b"{}";
+    let mut v = Vec::new();
+    w16(&mut v, 0x8000);
+    w16(&mut v, 0x494D);
+    w32(&mut v, run);
+    w32(&mut v, t0);
+    w32(&mut v, odb.len() as u32);
+    v.extend(odb);
+    for e in events {
+        v.extend(event_bytes_fmt(e, be, flavour));
+    }
+    w16(&mut v, 0x8001);
+    w16(&mut v, 0x494D);
+    w32(&mut v, run);
+    w32(&mut v, t1);
+    w32(&mut v, odb.len() as u32);
+    v.extend(odb);
+    v
+}
 pub fn write(path: &std::path::Path, bytes: &[u8]) {
     if path.extension().map(|e| e == "lz4").unwrap_or(false) { use std::io::Write; let f = std::fs::File::create(path).unwrap(); let mut enc = lz4::EncoderBuilder::new().build(f).unwrap(); enc.write_all(bytes).unwrap(); let (_, r) = enc.finish(); r.unwrap(); }
     else { std::fs::write(path, bytes).unwrap(); }
